@@ -236,7 +236,7 @@ def check_parity_large(case):
 
 @st.composite
 def _parity_large_cases(draw):
-    return {"n": draw(st.sampled_from([4096, 4097, 5000, 8193, 12289, 20000, 4095, 16385])), "groups": draw(st.integers(2, 4)),
+    return {"n": draw(st.sampled_from([4096, 4097, 5000, 8193, 12289, 20000, 4095, 16385, 300000])), "groups": draw(st.integers(2, 4)),
             "seed": draw(st.integers(0, 2**31 - 1)), "soft": draw(st.booleans()), "moment": draw(st.sampled_from(MC.MOMENTS)),
             "ratio": draw(st.sampled_from([None, None, 0.8, 0.5])), "frame": draw(st.booleans()),
             "last_label": draw(st.integers(0, 1)), "last_group": draw(st.integers(0, 3))}
